@@ -165,6 +165,65 @@ fn check_calendar_day(days: i64, secs: i64, st: &mut Stats) {
     }
 }
 
+/// try_from on an OffsetDateTime with a non-UTC offset. The statement does not say which wall clock is taken, so
+/// either the local or the UTC fields are accepted; what must hold: no panic anywhere, an accepted value lies in
+/// the documented ranges, packs without panic, converts back, and the conversions are inverse on it.
+fn check_offset_instant(ts: i64, offset_secs: i32, st: &mut Stats) {
+    st.evals += 1;
+    let case = json!({"kind":"offset","unix":ts,"offset":offset_secs});
+    let order = 1 << 42;
+    let (Ok(utc), Ok(off)) = (time::OffsetDateTime::from_unix_timestamp(ts), time::UtcOffset::from_whole_seconds(offset_secs)) else { return };
+    let odt = utc.to_offset(off);
+    let r = guard(|| DateTime::try_from(odt));
+    let dt = match r {
+        Err(p) => {
+            st.viol(format!("try_from/panic/{}", panic_site(&p)), format!("try_from({odt}) panicked: {p}"), case, order);
+            return;
+        }
+        Ok(Err(_)) => {
+            st.class("offset-reject");
+            // both readings out of range is the only reason to refuse
+            if (1980..=2107).contains(&odt.year()) && (1980..=2107).contains(&utc.year()) {
+                st.viol("try_from/rejects-in-range", format!("try_from({odt}) rejected"), case, order);
+            }
+            return;
+        }
+        Ok(Ok(dt)) => dt,
+    };
+    st.class("offset-accept");
+    let f = fields_of(&dt);
+    if !(1980..=2107).contains(&f.year) || !(1..=12).contains(&f.month) || !(1..=31).contains(&f.day) || f.hour > 23 || f.minute > 59 || f.second > 60 {
+        st.viol("try_from/out-of-range-fields", format!("try_from({odt}) produced {f:?}, outside the documented ranges"), case, order);
+        return;
+    }
+    let local = (odt.year() as i64, u8::from(odt.month()), odt.day(), odt.hour(), odt.minute(), odt.second());
+    let u = (utc.year() as i64, u8::from(utc.month()), utc.day(), utc.hour(), utc.minute(), utc.second());
+    let got = (f.year as i64, f.month, f.day, f.hour, f.minute, f.second);
+    if got != local && got != u {
+        st.viol("try_from/fields-of-neither-wall-clock", format!("try_from({odt}) produced {f:?}"), case.clone(), order);
+    }
+    match guard(|| (dt.datepart(), dt.timepart())) {
+        Err(p) => {
+            st.viol(format!("pack/panic/{}", panic_site(&p)), format!("packing try_from({odt}) = {f:?} panicked: {p}"), case, order);
+            return;
+        }
+        Ok((d, t)) => {
+            let back = fields_of(&DateTime::from_msdos(d, t));
+            if back != (Fields { second: f.second & !1, ..f }) {
+                st.viol("offset/pack-unpack-lossy", format!("{f:?} packs to ({d:#06x},{t:#06x}) -> {back:?}"), case.clone(), order);
+            }
+        }
+    }
+    match guard(|| dt.to_time()) {
+        Err(p) => st.viol(format!("to_time/panic/{}", panic_site(&p)), format!("to_time after try_from({odt}) panicked: {p}"), case, order),
+        Ok(Err(e)) => st.viol("offset/to_time-err", format!("to_time(try_from({odt})) = Err({e})"), case, order),
+        Ok(Ok(back)) => match guard(|| DateTime::try_from(back)) {
+            Ok(Ok(again)) if fields_of(&again) == f => {}
+            other => st.viol("offset/not-inverse", format!("try_from(to_time({f:?})) = {:?}", other.map(|r| r.map(|d| fields_of(&d)).ok())), case, order),
+        },
+    }
+}
+
 fn replay(case: &Value, st: &mut Stats) {
     match case["kind"].as_str().unwrap_or("") {
         "msdos" => check_pair(case["date"].as_u64().unwrap() as u16, case["time"].as_u64().unwrap() as u16, st),
@@ -173,6 +232,7 @@ fn replay(case: &Value, st: &mut Stats) {
             let a: Vec<u64> = case["args"].as_array().unwrap().iter().map(|x| x.as_u64().unwrap()).collect();
             check_ctor(a[0] as u16, a[1] as u8, a[2] as u8, a[3] as u8, a[4] as u8, a[5] as u8, st)
         }
+        "offset" => check_offset_instant(case["unix"].as_i64().unwrap_or(0), case["offset"].as_i64().unwrap_or(0) as i32, st),
         "calendar" => {
             let ts = case["unix"].as_i64().unwrap();
             check_calendar_day(ts.div_euclid(86400), ts.rem_euclid(86400), st)
@@ -274,6 +334,27 @@ pub fn run(args: &Args) -> i32 {
         }
     });
     ctx.stats.merge(s4);
+    // non-UTC offsets: every hour of the four days around each end of the range and of 6 ordinary days, x 9 offsets
+    let offsets: [i32; 9] = [0, 3600, -3600, 19800, -16200, 50400, -43200, 1, -1];
+    let mut hours: Vec<i64> = vec![];
+    for (y, m, d) in [(1979i64, 12i64, 30i64), (2107, 12, 30), (2000, 2, 28), (2024, 2, 28), (2100, 2, 27), (1999, 12, 30), (2038, 1, 18), (2106, 2, 6)] {
+        let base = dostime::days_from_civil(y, m, d) * 86400;
+        for h in 0..96 {
+            hours.push(base + h * 3600);
+            hours.push(base + h * 3600 + 1799);
+        }
+    }
+    let hours_r = &hours;
+    let s5 = par_for(hours.len() as u64, 16, |i, st| {
+        for &o in &offsets {
+            check_offset_instant(hours_r[i as usize], o, st);
+        }
+        if i == 7 {
+            st.sample(json!({"kind":"offset","unix":hours_r[i as usize],"offset":3600}));
+        }
+    });
+    ctx.stats.merge(s5);
+    ctx.bound("non_utc", json!("every hour (+ :29:59) of 4-day windows around 1980-01-01, 2107-12-31 and 6 other dates x offsets {0, +-1h, +5:30, -4:30, +14h, -12h, +-1s}"));
 
     let pairs = ctx.stats.extra.get("to_time_pairs").copied().unwrap_or(0);
     ctx.stats.states = (1u64 << 32).max(pairs);
